@@ -74,6 +74,11 @@ pub fn check_nav(rep: &mut Report, ctx: &J, src: &str, v: &Value, cm: &CodeMap, 
 	let n = nav["n"].as_u64().unwrap() as usize;
 	let frags = nav["frags"].as_array().unwrap();
 	// traverse / get_fragment / volume / count
+	if n <= 40 {
+		if let Some(route) = iter_routes(&|| v.traverse(), &|(i, f)| json!([i, f.is_value(), f.is_entry()])) {
+			fail("traverse(): consuming the traversal this way does not give the fragments next() gives", json!({"route": route}));
+		}
+	}
 	let tr: Vec<(usize, FragmentRef)> = v.traverse().collect();
 	if tr.len() != n || tr.iter().enumerate().any(|(i, (j, _))| i != *j) {
 		fail("traverse() does not yield the pre-order fragments 0..n", json!({"yielded": tr.len(), "n": n}));
@@ -129,7 +134,7 @@ pub fn check_nav(rep: &mut Report, ctx: &J, src: &str, v: &Value, cm: &CodeMap, 
 			if got != exp || !items_ok || got2 != exp {
 				fail("array iter_mapped offsets differ from the items' pre-order indices", json!({"at": at, "observed": got, "expected": exp}));
 			}
-			if let Some(route) = iter_routes(&|| a.iter_mapped(cm, at).map(|m| json!(m.offset))) {
+			if let Some(route) = iter_routes(&|| a.iter_mapped(cm, at), &|m| json!(m.offset)) {
 				fail("array iter_mapped: consuming the iterator another way does not give the elements next() gives", json!({"at": at, "route": route}));
 			}
 			for (m, _) in a.iter_mapped(cm, at).zip(exp.iter()) {
@@ -151,7 +156,7 @@ pub fn check_nav(rep: &mut Report, ctx: &J, src: &str, v: &Value, cm: &CodeMap, 
 				fail("object iter_mapped offsets differ from the entries' pre-order indices", json!({"at": at, "observed": got, "expected": exp}));
 				continue;
 			}
-			if let Some(route) = iter_routes(&|| o.iter_mapped(cm, at).map(|m| json!([m.offset, m.value.key.offset, m.value.value.offset]))) {
+			if let Some(route) = iter_routes(&|| o.iter_mapped(cm, at), &|m| json!([m.offset, m.value.key.offset, m.value.value.offset])) {
 				fail("object iter_mapped: consuming the iterator another way does not give the elements next() gives", json!({"at": at, "route": route}));
 			}
 			for (m, e) in o.iter_mapped(cm, at).zip(o.iter()) {
@@ -183,10 +188,10 @@ pub fn check_nav(rep: &mut Report, ctx: &J, src: &str, v: &Value, cm: &CodeMap, 
 					fail("key-based mapped lookup offsets differ", json!({"at": at, "key": k, "entries": g_e, "expected": exp_e, "values": g_v}));
 				}
 				let routes = [
-					iter_routes(&|| o.get_mapped_entries(cm, at, k).map(|m| json!([m.offset, m.value.key.offset, m.value.value.offset]))),
-					iter_routes(&|| o.get_mapped_entries_with_index(cm, at, k).map(|(i, m)| json!([i, m.offset]))),
-					iter_routes(&|| o.get_mapped(cm, at, k).map(|m| json!(m.offset))),
-					iter_routes(&|| o.get_mapped_with_index(cm, at, k).map(|(i, m)| json!([i, m.offset]))),
+					iter_routes(&|| o.get_mapped_entries(cm, at, k), &|m| json!([m.offset, m.value.key.offset, m.value.value.offset])),
+					iter_routes(&|| o.get_mapped_entries_with_index(cm, at, k), &|(i, m)| json!([i, m.offset])),
+					iter_routes(&|| o.get_mapped(cm, at, k), &|m| json!(m.offset)),
+					iter_routes(&|| o.get_mapped_with_index(cm, at, k), &|(i, m)| json!([i, m.offset])),
 				];
 				if let Some(route) = routes.iter().flatten().next() {
 					fail("key-based mapped lookup: consuming the iterator another way does not give the elements next() gives", json!({"at": at, "key": k, "route": route}));
